@@ -181,12 +181,15 @@ where
     let share_fn_span = Span::current();
     let source: Arc<Source<T>> = source.into();
     let sinks = Arc::new(ArcSwap::from_pointee(vec![]));
+    // the sinks of a subscription that is over which have not been told its end yet
+    let ending = Arc::new(ArcSwap::from_pointee(vec![]));
     let source_talkback: Arc<ArcSwapOption<Source<T>>> = Arc::new(ArcSwapOption::from(None));
 
     (move |message| {
         instrument!(follows_from: &share_fn_span, "share", share_span);
         trace!("from sink: {message:?}");
         let sinks = Arc::clone(&sinks);
+        let ending = Arc::clone(&ending);
         let source_talkback = Arc::clone(&source_talkback);
         if let Message::Handshake(sink) = message {
             sinks.rcu({
@@ -201,6 +204,7 @@ where
             let talkback: Arc<Source<T>> = Arc::new(
                 {
                     let sinks = Arc::clone(&sinks);
+                    let ending = Arc::clone(&ending);
                     let source_talkback = Arc::clone(&source_talkback);
                     let sink = Arc::clone(&sink);
                     {
@@ -239,6 +243,21 @@ where
                                                 sinks.splice(i..i + 1, iter::empty());
                                                 sinks
                                             });
+                                        } else {
+                                            // not attached any more: a sink that leaves while it is still
+                                            // owed the end of a subscription that is over is not told that end
+                                            let i = ending.load().iter().position({
+                                                let sink = Arc::clone(&sink);
+                                                move |s| Arc::ptr_eq(s, &sink)
+                                            });
+                                            if let Some(i) = i {
+                                                ending.rcu(move |ending| {
+                                                    let mut ending = (**ending).clone();
+                                                    ending.splice(i..i + 1, iter::empty());
+                                                    ending
+                                                });
+                                            }
+                                            return;
                                         }
                                     }
                                     if sinks.load().is_empty() {
@@ -273,12 +292,31 @@ where
                                         Message::Handshake(Arc::clone(&talkback)),
                                         "to sink: {message:?}"
                                     );
-                                } else {
-                                    if let Message::Error(_) | Message::Terminate = message {
-                                        // the source has ended: nothing may be sent to it any more, not
-                                        // even by a sink that acts while the end is being handed round
-                                        source_talkback.store(None);
+                                } else if let Message::Error(_) | Message::Terminate = message {
+                                    // the source has ended: nothing may be sent to it any more, not even by a
+                                    // sink that acts while the end is being handed round
+                                    source_talkback.store(None);
+                                    // every sink is detached at once, so that a sink which attaches from now on
+                                    // (even from inside a handler below) starts a fresh subscription; each one
+                                    // is owed the end, unless it leaves before its turn
+                                    let owed = sinks.swap(Arc::new(vec![]));
+                                    ending.rcu(|ending| {
+                                        let mut ending = (**ending).clone();
+                                        ending.extend(owed.iter().cloned());
+                                        ending
+                                    });
+                                    for s in &*owed {
+                                        let i = ending.load().iter().position(|x| Arc::ptr_eq(x, s));
+                                        if let Some(i) = i {
+                                            ending.rcu(move |ending| {
+                                                let mut ending = (**ending).clone();
+                                                ending.splice(i..i + 1, iter::empty());
+                                                ending
+                                            });
+                                            call!(s, message.clone(), "to sink: {message:?}");
+                                        }
                                     }
+                                } else {
                                     for s in &**sinks.load() {
                                         // a delivery may nest another fan-out (a sink pulls from inside
                                         // its handler and the source answers at once), which may have
@@ -287,9 +325,6 @@ where
                                             call!(s, message.clone(), "to sink: {message:?}");
                                         }
                                     }
-                                }
-                                if let Message::Error(_) | Message::Terminate = message {
-                                    sinks.store(Arc::new(vec![]));
                                 }
                             }
                         }
